@@ -1,8 +1,10 @@
 #!/usr/bin/env python3
 
 import logging
+import os
 import re
 import sys
+from contextlib import contextmanager
 from functools import cached_property
 from io import BytesIO
 from pathlib import Path
@@ -133,7 +135,7 @@ class FastaIndex:
             raise IndexUsageError(msg)
         if self.fai_file.exists():
             logging.warning(f"Overwriting FAI index file '{self.fai_file}'")
-        with self.fai_file.open("w") as idx_fh:
+        with self.replace_when_written(self.fai_file) as idx_fh:
             for name, info in idx_dict.items():
                 idx_fh.write(info.fai_row(name))
 
@@ -150,8 +152,27 @@ class FastaIndex:
             raise IndexUsageError(msg)
         if self.agp_file.exists():
             logging.warning(f"Overwriting AGP assembly file '{self.agp_file}'")
-        with self.agp_file.open("w") as agp_fh:
+        with self.replace_when_written(self.agp_file) as agp_fh:
             format_agp(asm, agp_fh)
+
+    @staticmethod
+    @contextmanager
+    def replace_when_written(file: Path):
+        """
+        Write to a temporary file in the same directory and move it into
+        place once it is complete, so that an interrupted or concurrent
+        indexing run never leaves a partly written file under the name (and
+        with the newer modification time) that `check_for_index_files()`
+        trusts.
+        """
+        tmp = file.with_name(f"{file.name}.{os.getpid()}.tmp")
+        try:
+            with tmp.open("w") as tmp_fh:
+                yield tmp_fh
+            os.replace(tmp, file)
+        except BaseException:
+            tmp.unlink(missing_ok=True)
+            raise
 
     def run_indexing(self):
         idx_dict, assembly = index_fasta_file(self.fasta_file, self.buffer_size)
